@@ -33,9 +33,12 @@ func (core *JApiCore) processContext(d *directive.Directive, root *[]*directive.
 						d.String(),
 					))
 				}
-				*root = append(*root, d)
-				core.currentContextDirective = d
-				return nil
+				// A method with its own path does not belong to the implicit URL: the
+				// URL context is closed and the method is placed further up (the root,
+				// or an enclosing explicit context such as a MACRO body, which must
+				// not be left silently).
+				core.currentContextDirective = core.currentContextDirective.Parent
+				continue
 			}
 
 			d.Parent = core.currentContextDirective
